@@ -808,20 +808,20 @@ Section Restore.
     intros a b c [_ Hab] Hbc. unfold node_fits in *. congruence.
   Qed.
 
-  Lemma in_insert_stable (x y : mcstate) l : In y (insert_stable tr_cmp x l) -> y = x \/ In y l.
+  Lemma in_insert_stable (x y : mcstate) l : In y (insert_stable so tr_cmp x l) -> y = x \/ In y l.
   Proof.
     induction l as [|z r IH]; cbn [insert_stable].
     - intros [H|[]]; auto.
-    - destruct (start_cmp tr_cmp x z); cbn [In]; intros H.
+    - destruct (start_cmp so tr_cmp x z); cbn [In]; intros H.
       + destruct H as [H|H]; auto. apply IH in H. tauto.
       + destruct H as [H|H]; auto.
       + destruct H as [H|H]; auto. apply IH in H. tauto.
   Qed.
 
-  Lemma in_sort_starts (y : mcstate) l : In y (sort_starts tr_cmp l) -> In y l.
+  Lemma in_sort_starts (y : mcstate) l : In y (sort_starts so tr_cmp l) -> In y l.
   Proof.
     unfold sort_starts.
-    assert (G : forall (l acc : list mcstate), In y (fold_left (fun acc x => insert_stable tr_cmp x acc) l acc) -> In y acc \/ In y l).
+    assert (G : forall (l acc : list mcstate), In y (fold_left (fun acc x => insert_stable so tr_cmp x acc) l acc) -> In y acc \/ In y l).
     { clear l. induction l as [|x r IH]; cbn [fold_left]; intros acc H; auto.
       apply IH in H. destruct H as [H|H]; [|right; right; auto].
       apply in_insert_stable in H. destruct H as [->|H]; [right; left|left]; auto. }
@@ -853,7 +853,7 @@ Section Restore.
     exists res ss', run_from_statesM ord cf pr sys cb starts = Ok (sys, res, ss').
   Proof.
     intros Hw Hfit Hord Hcb. unfold run_from_states.
-    assert (Hfit' : Forall (state_fits sys) (sort_starts tr_cmp (ord starts))).
+    assert (Hfit' : Forall (state_fits sys) (sort_starts so tr_cmp (ord starts))).
     { rewrite Forall_forall in *. intros x Hx. apply Hfit. eapply Hord. apply in_sort_starts. exact Hx. }
     destruct (run_starts_total cf pr cb sys _ Hcb Hfit' sys (ss_empty mcstate) [] [] Hw (same_frame_refl sys))
       as (s1 & res & ss1 & Hrun).
